@@ -2,13 +2,14 @@
 (* C04 - No task outlives its scope (structured concurrency containment)    *)
 EXTENDS ObsBase
 Ids == 1..16
-VARIABLES tid, l, sco, tsk, bad
-vars == <<tid, l, sco, tsk, bad>>
+VARIABLES tid, l, sco, tsk, bad, aw
+vars == <<tid, l, sco, tsk, bad, aw>>
+\* aw: awaits of tasks in progress, <<awaiter, task>>
 \* sco[s] = [owner, kind, exited, volflag]   tsk[k] = [s, vol, started, ended, how, cancelled]
 NoScope == [owner |-> 0, kind |-> "", exited |-> FALSE, volflag |-> FALSE]
 NoTask == [s |-> 0, vol |-> FALSE, started |-> FALSE, ended |-> FALSE, how |-> "", cancelled |-> FALSE]
 Init == /\ tid \in 1..N /\ l = 1 /\ bad = ""
-        /\ sco = [s \in Ids |-> NoScope] /\ tsk = [k \in Ids |-> NoTask]
+        /\ sco = [s \in Ids |-> NoScope] /\ tsk = [k \in Ids |-> NoTask] /\ aw = {}
 
 \* is activity a (transitively) contained in a scope that has already been left?
 RECURSIVE Escaped(_, _)
@@ -25,9 +26,17 @@ Fail(c) == bad' = c /\ UNCHANGED <<sco, tsk>>
 Step ==
   /\ l <= Len(Traces[tid]) /\ bad = ""
   /\ l' = l + 1 /\ UNCHANGED tid
+  /\ aw' = LET e == Traces[tid][l] a == F(e, "a", 0) op == F(e, "op", "") IN
+           IF op = "await_t" /\ e.e = "b" THEN aw \cup {<<a, F(e, "k", 0)>>}
+           ELSE IF op = "await_t" /\ e.e \in {"r", "x", "u"} THEN {w \in aw : w[1] # a}
+           ELSE IF e.e = "end" THEN {w \in aw : w[1] # a} ELSE aw
   /\ LET e == Traces[tid][l] a == F(e, "a", 0) op == F(e, "op", "")
+         k0 == F(e, "k", 0)
          tk1 == IF a \in Ids /\ tsk[a].s # 0 /\ e.e \in {"b", "r", "x", "p"} THEN [tsk EXCEPT ![a].started = TRUE] ELSE tsk IN
-     IF e.e = "fin" THEN UNCHANGED <<sco, tsk, bad>>
+     IF e.e = "fin" THEN
+        \* every task of a block that has been left is done: nobody can still be waiting for it when nothing is left to run
+        (IF e.ok /\ \E w \in aw : w[2] \in Ids /\ tsk[w[2]].s # 0 /\ sco[tsk[w[2]].s].exited
+         THEN Fail("C04.child_not_done") ELSE UNCHANGED <<sco, tsk, bad>>)
      ELSE IF a \in Ids /\ Escaped(a, 8) THEN Fail("C04.ran_after_exit")
      ELSE CASE e.e = "b" /\ op = "open" ->
                  /\ sco' = [sco EXCEPT ![e.s] = [owner |-> a, kind |-> e.kind, exited |-> FALSE, volflag |-> FALSE]]
